@@ -42,6 +42,14 @@ fn verify_layout_expiration(layout: &LayoutMetadata) -> Result<()> {
 
 /// load content from path to a Metablock
 fn load_linkfile(path: &PathBuf) -> Result<Metablock> {
+    // the link directory is untrusted: only read regular files (a device or
+    // a fifo behind the name would be read without end)
+    if !fs::metadata(path)?.is_file() {
+        return Err(Error::VerificationFailure(format!(
+            "link file {:?} is not a regular file",
+            path
+        )));
+    }
     let content = fs::read_to_string(path)?;
     let meta = serde_json::from_str(&content)?;
     Ok(meta)
